@@ -247,6 +247,22 @@ where
     preceded(blank, f)
 }
 
+// A word of the language ends where a name would go on: `truest`, `iffy`, `letter`, `inner`, `thence` are
+// names. Matched as bare prefixes they cut the name in two (`truest` was `true` followed by garbage, a syntax
+// error; `if iffy then ..` was not a conditional).
+fn keyword<'a, E>(word: &'static str) -> impl FnMut(Span<'a>) -> IResult<Span<'a>, Span<'a>, E>
+where
+    E: ParseError<Span<'a>>
+        + ContextError<Span<'a>>
+        + FromExternalError<Span<'a>, ParseIntError>
+        + fmt::Debug,
+{
+    terminated(
+        tag(word),
+        nom::combinator::not(alt((alphanumeric1, tag("_")))),
+    )
+}
+
 rule!(string -> Value, {
     map(string::parse_string,Into::into)
 });
@@ -256,8 +272,8 @@ rule!(template -> Value, {
 });
 
 rule!(boolean -> Value, {
-    let parse_true = nom::combinator::value(true, tag("true"));
-    let parse_false = nom::combinator::value(false, tag("false"));
+    let parse_true = nom::combinator::value(true, keyword("true"));
+    let parse_false = nom::combinator::value(false, keyword("false"));
     map(alt((parse_true, parse_false)),Into::into)
 });
 
@@ -473,9 +489,9 @@ rule!(op_if(i) -> Value, {
     alt((
         map(
             nom_tuple((
-                preceded(tag("if"),op_0),
-                preceded(ws(tag("then")),op_0),
-                preceded(ws(tag("else")),op_0),
+                preceded(keyword("if"),op_0),
+                preceded(ws(keyword("then")),op_0),
+                preceded(ws(keyword("else")),op_0),
             )),
             |(cond, yes, no)| If::make_call(cond, yes, no).into()
         ),
@@ -507,13 +523,13 @@ rule!(op_assign -> Value, {
 rule!(op_let -> Value, {
     map(
         nom_tuple((
-            preceded(tag("let"),
+            preceded(keyword("let"),
                 terminated(
                     separated_list0(ws(char(';')), op_assign),
                     opt(ws(char(';')))
                 )
             ),
-            preceded(ws(tag("in")),op_0),
+            preceded(ws(keyword("in")),op_0),
         )),
         |(vars,expr)| Scope::make_call(vars.into(),expr).into()
     )
